@@ -86,6 +86,32 @@ def d1_copies(ctx, ic, ii):
                         s.slice.lower is not None and s.slice.upper is not None and \
                         norm(s.slice.lower) == a and norm(s.slice.upper) == b:
                     ok = True
+    if not ok and not loops:
+        # lazy form: `frames = iterindices(...)`; `chunks = (copy(map[a:b]) for a, b in frames)`; `for c in chunks: yield c`
+        from ..pathcond import inline as _inl
+        for comp in (n for n in own_nodes(ic.node) if isinstance(n, (ast.GeneratorExp, ast.ListComp)) and len(n.generators) == 1):
+            gen = comp.generators[0]
+            it = _inl(ic, gen.iter)
+            if not (isinstance(it, ast.Call) and any(t is ii for k, t in ctx.R.resolve_call(it, ic) if k == 'repo')) or gen.ifs:
+                continue
+            if not (isinstance(gen.target, ast.Tuple) and len(gen.target.elts) == 2):
+                continue
+            a, b = [norm(x) for x in gen.target.elts]
+            sl = [s_ for s_ in ast.walk(comp.elt) if isinstance(s_, ast.Subscript) and isinstance(s_.value, ast.Name) and
+                  s_.value.id in seeds and isinstance(s_.slice, ast.Slice) and s_.slice.step is None and
+                  s_.slice.lower is not None and s_.slice.upper is not None and
+                  norm(s_.slice.lower) == a and norm(s_.slice.upper) == b]
+            holder = [st.targets[0].id for st in own_nodes(ic.node) if isinstance(st, ast.Assign) and st.value is comp and
+                      isinstance(st.targets[0], ast.Name)]
+            consumed = [f_ for f_ in own_nodes(ic.node) if isinstance(f_, ast.For) and isinstance(f_.target, ast.Name) and
+                        ((holder and norm(f_.iter) == holder[0]) or f_.iter is comp) and
+                        any(isinstance(y, ast.Yield) and isinstance(y.value, ast.Name) and y.value.id == f_.target.id
+                            for y in ast.walk(f_))]
+            consumed += [y for y in own_nodes(ic.node) if isinstance(y, ast.YieldFrom) and
+                         ((holder and norm(y.value) == holder[0]) or y.value is comp)]
+            if sl and consumed:
+                ok = True
+                loops = [consumed[0]] if isinstance(consumed[0], ast.For) else []
     ctx.decide(ok, 'R-FLOW', 'D1', ic, loops[0] if loops else None, 'slice-is-frame',
                'iterchunks yields map[framestart:frameend] for the (framestart, frameend) pairs of iterindices',
                detail='the yielded slice is not exactly the frame obtained from iterindices')
